@@ -26,6 +26,8 @@ func init() {
 			{ID: "R14e", Floor: 7, Doc: "the CARv1 header size that seeds the offsets is measured by encoding, like its sibling writers (= R01c)", Run: ruleR01c},
 			{ID: "R14f", Floor: 2, Doc: "skipping on non-seekable sources counts every byte (= R03d)", Run: ruleR03d},
 			{ID: "R14g", Floor: 1, Doc: "section length reads distinguish clean EOF from truncation the same way for every source type (= R02c)", Run: ruleR02c},
+			{ID: "R14h", Floor: 5, Doc: "seeks over block bodies stay within what the reader has (no skip past the bounded payload) (= R02b)", Run: ruleR02b},
+			{ID: "R14i", Floor: 8, Doc: "a section is read into a buffer sized by its own decoded length (= R01b)", Run: ruleR01b},
 		},
 	})
 }
